@@ -18,7 +18,7 @@ def c11Sources : List (String × String) := [
   ("tensordict/_reductions.py:_normalize_metadata", "66b94c1fd07c6547"),
   ("tensordict/_reductions.py:_reduce_td", "6545905ea57adce3"),
   ("tensordict/_lazy.py:LazyStackedTensorDict.from_dict", "59b0f3e56a6a23e4"),
-  ("tensordict/base.py:TensorDictBase.state_dict", "3a5e71c76b5791f6"),
+  ("tensordict/base.py:TensorDictBase.state_dict", "4ff50a3b8d707d54"),
   ("tensordict/base.py:TensorDictBase.load_state_dict", "51ae9bf9b9c60c6e"),
   ("tensordict/_pytree.py:_tensordict_flatten", "ba6bcf3faaf178bd"),
   ("tensordict/_pytree.py:_tensordict_unflatten", "638b59f819ad6ee0")
